@@ -10,10 +10,11 @@
 import Model.Frame
 import Lemmas.DfSort
 import Lemmas.Frame
+import Lemmas.DfSortMore
 
 namespace DI.C03
 
-open DI
+open DI DI.SortMore
 
 /-- every input row exactly once (with `C02.whole_rows`: no value altered in any column). -/
 theorem sort_perm (n : Nat) (keys : List (ColKind × Bool × List Cell)) :
@@ -52,5 +53,93 @@ example : WfKeys 3 [({ isString := false, fastAsc := true, isNumber := true, isI
   refine ⟨rfl, fun _ => ?_⟩
   intro c hc; simp at hc
   rcases hc with rfl | rfl | rfl <;> exact Or.inr ⟨_, rfl⟩
+
+/-! ### round 3: missing values inside tie groups, degenerate frames, idempotence
+
+    `sortRow n keys i` is the tuple of key cells of input row `i`; `[i, j].Sublist (dfSortIdx n keys)`
+    says that row `i` comes before row `j` in the sorted frame; two rows are in the same tie group
+    of the first `m` keys when `(sortRow … i).take m = (sortRow … j).take m` (the specification
+    orders are strict linear orders on cells, `sort_orders_are_linear`, so "not separated by the
+    earlier keys" is "equal on the earlier keys").  `naLast k desc col` says at which end a key puts
+    its missing values: last when ascending, and when descending last for a negated numeric
+    column (float, timedelta) but first for a ranked column (string, bool, date, object). -/
+
+theorem sort_orders_are_linear (k : ColKind) (desc : Bool) (col : List Cell) :
+    StrictLin (specLt k desc col) := specLt_strictLin k desc col
+
+/-- the cells of a key row are the cells of the key columns. -/
+theorem key_row_cells (n : Nat) (keys : List (ColKind × Bool × List Cell)) (i : Nat) (hi : i < n)
+    (m : Nat) (hm : m < keys.length) : (sortRow n keys i)[m]! = (keys[m]).2.2[i]! :=
+  sortRow_cell n keys i hi m hm
+
+/-- within a tie group of the earlier keys, the rows whose key `m` is missing are together at
+    one end and contiguous:
+    (1) a key with `naLast` (every ascending key; descending float / timedelta): after a row
+        with a missing key come only rows with a missing key — the missing values are after all
+        non-missing rows of the group;
+    (2) a key without `naLast` (descending ranked key): before a row with a missing key come
+        only rows with a missing key — the missing values are before all non-missing rows;
+    (3) in every case a row of the result between two tied rows with a missing key is tied
+        with them and has a missing key. -/
+theorem sort_missing_together (n : Nat) (keys : List (ColKind × Bool × List Cell)) (hwf : WfKeys n keys)
+    (m : Nat) (hm : m < keys.length) :
+    (naLast keys[m].1 keys[m].2.1 keys[m].2.2 = true →
+      ∀ i j, [i, j].Sublist (dfSortIdx n keys) →
+        (sortRow n keys i).take m = (sortRow n keys j).take m →
+        (sortRow n keys i)[m]! = none → (sortRow n keys j)[m]! = none) ∧
+    (naLast keys[m].1 keys[m].2.1 keys[m].2.2 = false →
+      ∀ i j, [i, j].Sublist (dfSortIdx n keys) →
+        (sortRow n keys i).take m = (sortRow n keys j).take m →
+        (sortRow n keys j)[m]! = none → (sortRow n keys i)[m]! = none) ∧
+    (∀ i j k, [i, j, k].Sublist (dfSortIdx n keys) →
+        (sortRow n keys i).take m = (sortRow n keys k).take m →
+        (sortRow n keys i)[m]! = none → (sortRow n keys k)[m]! = none →
+        (sortRow n keys j).take m = (sortRow n keys i).take m ∧ (sortRow n keys j)[m]! = none) :=
+  ⟨fun hl i j hs ht hna => dfSort_missing_last n keys hwf m hm hl i j hs ht hna,
+   fun hf i j hs ht hna => dfSort_missing_first n keys hwf m hm hf i j hs ht hna,
+   fun i j k hs ht hi hk => dfSort_missing_contiguous n keys hwf m hm i j k hs ht hi hk⟩
+
+/-- which end, per dtype and direction: ascending keys put missing values last; descending keys
+    put them last exactly when `sort_key` never ranks the column (a numeric dtype that is not a
+    string column with missing values). -/
+theorem sort_missing_end (k : ColKind) (col : List Cell) :
+    naLast k false col = true ∧
+    (naLast k true col = true ↔ (k.isNumber = true ∧ (k.isString && col.any isNa) = false)) :=
+  naLast_cases k col
+
+/-- tie groups of the leading keys are contiguous in the result. -/
+theorem sort_tie_groups_contiguous (n : Nat) (keys : List (ColKind × Bool × List Cell)) (hwf : WfKeys n keys)
+    (m : Nat) (hm : m ≤ keys.length) (i j k : Nat) (hs : [i, j, k].Sublist (dfSortIdx n keys))
+    (htie : (sortRow n keys i).take m = (sortRow n keys k).take m) :
+    (sortRow n keys j).take m = (sortRow n keys i).take m :=
+  dfSort_tie_contiguous n keys hwf m hm i j k hs htie
+
+/-- sort of an empty frame and of a one-row frame. -/
+theorem sort_empty_and_single (keys : List (ColKind × Bool × List Cell)) :
+    dfSortIdx 0 keys = [] ∧ dfSortIdx 1 keys = [0] := ⟨dfSortIdx_zero keys, dfSortIdx_one keys⟩
+
+/-- without keys the order is unchanged. -/
+theorem sort_no_keys (n : Nat) : dfSortIdx n [] = List.range n := dfSortIdx_no_keys n
+
+/-- sorting the sorted frame by the same keys changes nothing: on the key columns of the
+    sorted frame (`gatherKeys keys (dfSortIdx n keys)`: every key column gathered by the sort
+    permutation) the sort permutation is the identity. -/
+theorem sort_idempotent (n : Nat) (keys : List (ColKind × Bool × List Cell)) (hwf : WfKeys n keys) :
+    dfSortIdx n (gatherKeys keys (dfSortIdx n keys)) = List.range n := dfSortIdx_idempotent n keys hwf
+
+/-- more generally, a frame already in key order is left as it is (stability). -/
+theorem sort_of_sorted (n : Nat) (keys : List (ColKind × Bool × List Cell))
+    (h : (rowsOf n (keys.map (fun k => sortKey k.1 k.2.1 k.2.2))).Pairwise (fun a b => leLex a b = true)) :
+    dfSortIdx n keys = List.range n := dfSortIdx_of_sorted n keys h
+
+/-- non-vacuity: the three ends. -/
+example : naLast { isString := false, fastAsc := true, isNumber := true, isInteger := false } true
+    [some (.i 1), none] = true := by decide
+example : naLast { isString := true, fastAsc := false, isNumber := false, isInteger := false } true
+    [some (.s [97]), none] = false := by decide
+example : gatherKeys [({ isString := false, fastAsc := true, isNumber := true, isInteger := true }, false,
+    [some (.i 3), some (.i 1)])] [1, 0] =
+    [({ isString := false, fastAsc := true, isNumber := true, isInteger := true }, false,
+    [some (.i 1), some (.i 3)])] := by decide
 
 end DI.C03
